@@ -146,13 +146,6 @@ def hook_packages(
     # ....................{ HOOKS                          }....................
     # With a submodule-specific thread-safe reentrant lock...
     with claw_lock:
-        # ....................{ BLACKLIST                  }....................
-        # If blacklisting one or more packages from type-checking, do so.
-        # print(f'Blacklisting packages: {repr(conf.claw_skip_package_names)}')
-        if conf.claw_skip_package_names:
-            _blacklist_packages(conf.claw_skip_package_names)
-        # Else, *NO* packages are being blacklisted from type-checking. Fine!
-
         # ....................{ WHITELIST ~ beartype_all   }....................
         # If type-checking *ALL* packages, do so.
         if claw_coverage is BeartypeClawCoverage.PACKAGES_ALL:
@@ -161,6 +154,18 @@ def hook_packages(
         # Else, only a subset of packages are being type-checked. Do it! Do it!
         else:
             _whitelist_packages_some(package_names=package_names, conf=conf)  # type: ignore[arg-type]
+
+        # ....................{ BLACKLIST                  }....................
+        # If blacklisting one or more packages from type-checking, do so.
+        #
+        # Note that we intentionally defer doing so until *AFTER* the above
+        # whitelisting has succeeded. Whitelisting raises an exception on
+        # detecting a conflicting configuration, in which case this call *MUST*
+        # leave the blacklist unmodified as well.
+        # print(f'Blacklisting packages: {repr(conf.claw_skip_package_names)}')
+        if conf.claw_skip_package_names:
+            _blacklist_packages(conf.claw_skip_package_names)
+        # Else, *NO* packages are being blacklisted from type-checking. Fine!
 
         # ....................{ path hook                  }....................
         # Lastly, if our beartype import path hook singleton has *NOT* already
@@ -378,6 +383,38 @@ def _whitelist_packages_some(
 
     # Avoid circular import dependencies.
     from beartype.claw._clawstate import claw_state
+
+    # For the fully-qualified name of each package to be whitelisted, raise an
+    # exception if this package was previously whitelisted under a conflicting
+    # configuration. Doing so *BEFORE* whitelisting any package below guarantees
+    # this call to either whitelist all of these packages or none of them
+    # (i.e., to leave the global trie whitelist unmodified on raising).
+    for package_name in package_names:  # type: ignore[union-attr]
+        subpackages_trie_whitelist = claw_state.packages_trie_whitelist
+
+        for package_basename in package_name.split('.'):
+            subpackages_trie_whitelist = subpackages_trie_whitelist.get(  # type: ignore[assignment]
+                package_basename)
+
+            # If this package has yet to be described, halt; this package
+            # *CANNOT* have been previously whitelisted.
+            if subpackages_trie_whitelist is None:
+                break
+        # If this package has already been described...
+        else:
+            conf_curr = subpackages_trie_whitelist.conf_if_hooked
+
+            if conf_curr is not None and conf_curr != conf:
+                raise BeartypeClawHookException(
+                    f'Beartype import hook '
+                    f'(e.g., beartype.claw.beartype_*() function) '
+                    f'previously passed conflicting beartype configuration for '
+                    f'package "{package_name}":\n'
+                    f'\t----------( OLD "conf" PARAMETER )----------\n'
+                    f'\t{repr(conf_curr)}\n'
+                    f'\t----------( NEW "conf" PARAMETER )----------\n'
+                    f'\t{repr(conf)}\n'
+                )
 
     # For the fully-qualified name of each package to be whitelisted...
     for package_name in package_names:  # type: ignore[union-attr]
